@@ -91,3 +91,13 @@ func TestC07(t *testing.T) {
 			return x.Labels["rebuild:promoted"] > 0 && x.Labels["write:acked"] > 0
 		})
 }
+
+// ---- C16 (through the controller) ------------------------------------------------
+
+var c16CtlCfg = SGenCfg{RFs: []int{1, 2, 3}, MinOps: 3, MaxOps: 16, FaultPct: 0, Blocks: 8,
+	W: map[string]int{"write": 40, "read": 16, "ctlresize": 26, "snapshot": 8, "readd": 6, "remove": 3}}
+
+func TestC16Controller(t *testing.T) {
+	runStackProperty(t, "C16", "TestC16Controller", func(rt *rapid.T) SProgram { return GenSProgram(rt, c16CtlCfg) },
+		func(p SProgram, x *SExec) bool { return x.Labels["ctlresize:grow"] > 0 && x.Labels["write:acked"] > 0 })
+}
